@@ -1,4 +1,5 @@
 import Driver.C04
+import Driver.C15_87C
 import Driver.C01_Ext
 import Driver.C09X
 import Driver.C02Chan
@@ -36,6 +37,7 @@ partial def loop (h : IO.FS.Stream) (out : IO.FS.Stream) (f : String → String)
   loop h out f
 
 def modes : List (String × (String → String)) := [
+  ("c15_87", C15_87C.handle),
   ("c01x", C01X.handle),
   ("c09x", C09X.handle),
   ("c02x", C02Chan.handle),
